@@ -277,7 +277,8 @@ def check_gm(ctx, ref, o, eff, fft, hist, mode):
             return False
         return True
     for e in o.mc_names:
-        kw = {par: eff[e][par] for par in ("S", "tau_exp", "N_sigma")}
+        # the reference gets the effective parameters as floats: an int and a float of equal value are the same parameter
+        kw = {par: float(eff[e][par]) for par in ("S", "tau_exp", "N_sigma")}
         kw["fft"] = fft
         r = ref.call({"op": "gm_proj", "plain": pl, "ens": e, "kw": kw})
         ctx.compared += 1
